@@ -112,7 +112,7 @@ def _run_task(i):
         res = {f"{qual}:translate": (UNTRANSLATABLE, str(u), 0)}
     except Exception as e:          # an engine crash on one function is reported, never a verdict
         import traceback
-        res = {f"{qual}:engine-error": (UNTRANSLATABLE, "engine error: " + traceback.format_exc(limit=6), 0)}
+        res = {f"{qual}:engine-error": (UNTRANSLATABLE, "engine error: " + traceback.format_exc()[-1500:], 0)}
     if not res:
         res = {f"{qual}:no-obligations": (FAILED, "vacuity guard: the function generated no obligation", 0)}
     if os.environ.get("PYVC_PROFILE"):
